@@ -48,6 +48,8 @@ typedef struct {
     int mixlet;      /* vary the exponent letter per value */
     int single;      /* working precision is single */
     int emax;        /* decimal exponent range of generated magnitudes */
+    int tight;       /* minimal-width fields on non-negative data: a value may fill its field completely, so that adjacent fields touch
+                        (digits of one value directly followed by the first digit of the next) - legal fixed-width Fortran output */
 } c16_vstyle;
 
 static double c16_rawvalue(vf_rng *r, int emax)
@@ -76,6 +78,7 @@ static void c16_parse(const char *text, double *vd, float vf[2])
 static void c16_value_text(vf_rng *r, const c16_vstyle *s, char *out, size_t outn, double *vd, float vf[2])
 {
     double v = c16_rawvalue(r, s->emax);
+    if (s->tight) v = fabs(v);
     char body[96];
     if (s->kind == 0) {
         int sig = s->pform ? s->d + 1 : s->d; if (sig < 1) sig = 1;
@@ -97,9 +100,10 @@ static void c16_value_text(vf_rng *r, const c16_vstyle *s, char *out, size_t out
         if (v >= 0 && (int)strlen(body) + 1 <= s->w && rng_bool(r, 0.04)) { memmove(body + 1, body, strlen(body) + 1); body[0] = '+'; }
         snprintf(out, outn, "%*s", s->w, body);
     } else if (s->kind == 1) {
-        int intd = s->w - s->d - 2; if (intd > 8) intd = 8;
+        int intd = s->w - s->d - 2 + (s->tight ? 1 : 0); if (intd > 8) intd = 8;
         if (intd < 1) v = 0.0;
         else if (fabs(v) >= 1.0) { v = (2 * rng_unif(r) - 1) * pow(10.0, (double)rng_int(r, 0, intd)); if (fabs(v) >= pow(10.0, (double)intd) * 0.99) v = 1.0; }
+        if (s->tight) v = fabs(v);
         snprintf(body, sizeof body, "%#*.*f", s->w, s->d, v);
         if ((int)strlen(body) != s->w) snprintf(body, sizeof body, "%#*.*f", s->w, s->d, 0.0);
         snprintf(out, outn, "%s", body);
@@ -245,11 +249,13 @@ static void c16_gen_hbrb(vf_case *c, c16_file *F)
         vs.d = rng_int(r, 1, vs.single ? 9 : 17);
         if (vs.pform && vs.d > 16) vs.d = 16;
         vs.w = vs.d + 7 + vs.exp3 + (rng_bool(r, 0.5) ? 0 : rng_int(r, 1, 4));
+        if (rng_bool(r, 0.12)) { vs.tight = 1; vs.w = vs.d + 6 + vs.exp3; }
         int ls = rng_int(r, 0, 9);
         vs.explet = ls < 6 ? dl : ls < 8 ? (char)tolower(dl) : (dl == 'E' ? 'D' : 'E');
         vs.mixlet = rng_bool(r, 0.1);
     } else {
         vs.d = rng_int(r, 0, 10); vs.w = vs.d + 3 + rng_int(r, 0, 8); vs.emax = 6;
+        if (rng_bool(r, 0.2)) vs.tight = 1;
     }
     int kvmax = 80 / vs.w, kv = rng_bool(r, 0.4) ? kvmax : rng_int(r, 1, kvmax);
     int lower = rng_bool(r, 0.2);
@@ -324,7 +330,7 @@ static void c16_gen_hbrb(vf_case *c, c16_file *F)
     /* bookkeeping */
     vf_tag(c, "type=%s", type); vf_tag(c, "vfmt=%c", dl); vf_tag(c, "P=%s", vs.kind ? "na" : vs.pform == 0 ? "none" : vs.pform == 1 ? "nocomma" : "comma");
     if (vs.kind == 0) { vf_tag(c, "explet=%c", vs.mixlet ? 'm' : vs.explet); vf_tag(c, "exp3=%d", vs.exp3); }
-    vf_tag(c, "desc-case=%s", lower ? "lower" : "upper");
+    vf_tag(c, "desc-case=%s", lower ? "lower" : "upper"); if (vs.tight) vf_tag(c, "value-fields=touching");
     vf_tag(c, "rhs=%d", rhscrd > 0); vf_tag(c, "kval=%s", kv == 1 ? "1" : kv == kvmax ? "max" : "mid");
     vf_tag(c, "lastline=%s", nv % kv ? "short" : "full"); vf_tag(c, "rows=%s", sorted ? "sorted" : "shuffled");
     if (sym) vf_tag(c, "diag=%s", missing == 0 ? "all" : missing == n ? "none" : "some");
